@@ -36,6 +36,7 @@ type Obligation struct {
 // (one function under contract, or one lemma).
 type VC struct {
 	W        *World
+	resultOrigin map[string]string // pointer result term of a logged call -> index of its event (for evFrom)
 	S        *Sorts
 	Unit     string
 	decls    []string
@@ -440,7 +441,7 @@ func (vc *VC) effectTag(key string) string {
 }
 
 // logEffect appends one event to the trace.
-func (vc *VC) logEffect(st *State, key string, recv string, strs []string, err string, payload string, ptr string) {
+func (vc *VC) logEffect(st *State, key string, recv string, strs []string, err string, payload string, ptr string, b1 string, from string) string {
 	tc, lc := vc.traceCells(st)
 	s1, s2, s3 := "\"\"", "\"\"", "\"\""
 	if len(strs) > 0 {
@@ -464,10 +465,17 @@ func (vc *VC) logEffect(st *State, key string, recv string, strs []string, err s
 	if ptr == "" {
 		ptr = "0"
 	}
-	ev := fmt.Sprintf("(mk_ev %s %s %s %s %s %s %s %s)", vc.effectTag(key), recv, s1, s2, s3, err, payload, ptr)
+	if b1 == "" {
+		b1 = "false"
+	}
+	if from == "" {
+		from = "(- 1)"
+	}
+	ev := fmt.Sprintf("(mk_ev %s %s %s %s %s %s %s %s %s %s)", vc.effectTag(key), recv, s1, s2, s3, err, payload, ptr, b1, from)
 	ln := st.cells[lc]
 	st.cells[tc] = vc.define("trace", "(Array Int Event)", fmt.Sprintf("(store %s %s %s)", st.cells[tc], ln, ev))
 	st.cells[lc] = vc.define("tlen", "Int", fmt.Sprintf("(+ %s 1)", ln))
+	return ln
 }
 
 // ghostCell returns the cell of a specification-only global variable, initialised to an arbitrary value in st.
